@@ -44,7 +44,7 @@ BUDGET = {
 }
 SMALL = ["small_ragged", "small_repeats", "small_alphabet1", "small_tie_costs", "small_hyp_longer",
          "small_unequal_costs"]
-OC_CLASSES = [c for c in G.CLASSES if c != "nondyadic"] + SMALL + ["mismatch", "small_mismatch"]
+OC_CLASSES = [c for c in G.CLASSES if c != "nondyadic"] + SMALL + ["mismatch", "small_mismatch", "multi_repeat"]
 LOSS_CLASSES = ["ocd_uniform", "ocd_ragged", "ocd_repeats", "ocd_hyp_longer", "ocd_alphabet1", "ocd_spread",
                 "ocd_mismatch"]
 CLASSES = OC_CLASSES + LOSS_CLASSES + ["zero_dim_eos"]
@@ -120,6 +120,26 @@ def generate(rng, tier, i):
         if rng.random() < 0.7:
             a, b = rng.choice([0.5, 1.0, 1.5]), rng.choice([0.5, 1.0, 1.5])
             case["costs"] = rng.choice([[a, a, a], [a, b, a], [a, b, a]])  # sub == ins: row ties
+    elif cls == "multi_repeat":
+        # a token at >= 3 reference positions, two letters only: some occurrences are optimal next
+        # tokens while an occurrence in between is not (duplicate handling of the target list)
+        case = G.gen_string_case(rng, tier, G.CLASSES.index("ragged"))
+        case["class"] = cls
+        N = len(case["ref"])
+        R, H = rng.randint(4, 6), rng.randint(2, 5)
+        case["R"], case["H"] = R, H
+        case["eos"] = rng.choice([None, 0])
+        refs, hyps = [], []
+        for _ in range(N):
+            major = rng.choice([1, 2])
+            ref = [major if rng.random() < 0.65 else 3 - major for _ in range(R)]
+            for pos in rng.sample(range(R), 3):
+                ref[pos] = major
+            refs.append(ref)
+            hyps.append([rng.choice([1, 2, 2, 1, 5]) for _ in range(H)])
+        case["ref"], case["hyp"] = refs, hyps
+        a = rng.choice([0.5, 1.0])
+        case["costs"] = rng.choice([[1.0, 1.0, 1.0], [a, a, 2 * a], [a, a, 2 * a + 0.5], [1.0, 0.5, 1.0]])
     else:
         case = G.gen_string_case(rng, tier, j, classes=OC_CLASSES)
     case["kind"] = "oc"
